@@ -125,6 +125,57 @@ def run(ck: Check):
         ck.case(dict(metric="PrequentialError", alpha=al, prefix_len=len(pre)), nontrivial=True, key=repr((al, pre, suf)))
         if a != b_ or (p.cumulative_error, p.cumulative_instances, p.num_instances) == (None,):
             ck.violation(dict(clause="reset-behaviour", detector="PrequentialError"), dict(alpha=al, prefix=pre, suffix=suf, after_reset=a, fresh=b_))
+    # PrequentialError after extreme (but legal) error values: inf / huge before the reset must leave no trace
+    for pre in ([0.2, float("inf"), 0.1], [1e308, 1e308, 0.5], [float("inf")], [0.3, -float("inf")]):
+        for al in (1.0, 0.9):
+            p, f = PrequentialError(alpha=al), PrequentialError(alpha=al)
+            suf = [0.0, 1.0, 1.0, 0.5, 0.0]
+            try:
+                for v in pre:
+                    p(v)
+                p.reset()
+                a = [p(v) for v in suf]
+                b_ = [f(v) for v in suf]
+            except Exception as e:  # noqa: BLE001
+                ck.violation(dict(clause="reset-behaviour", detector="PrequentialError", error=type(e).__name__), dict(alpha=al, prefix=[repr(v) for v in pre], error=repr(e)))
+                continue
+            ck.case(dict(metric="PrequentialError", alpha=al, prefix=[repr(v) for v in pre], kind="extreme-prefix"), nontrivial=True, key=repr(("preq-ext", al, [repr(v) for v in pre])))
+            if [repr(x) for x in a] != [repr(x) for x in b_]:
+                ck.violation(dict(clause="reset-behaviour", detector="PrequentialError", prefix="non-finite"), dict(what="values reported after reset() depend on an infinite / huge error value seen before it", alpha=al, prefix=[repr(v) for v in pre], suffix=suf, after_reset=[repr(x) for x in a], fresh=[repr(x) for x in b_]))
+    # what update() RETURNS (the callbacks' logs) after a reset, with a history callback attached: as on a new
+    # detector with a new callback
+    from frouros.callbacks import HistoryConceptDrift
+    from frouros.utils.stats import BaseStat
+
+    def plain(logs):
+        def sc(v):
+            v = v.get() if isinstance(v, BaseStat) else v
+            return repr(float(v)) if isinstance(v, (bool, int, float, np.integer, np.floating, np.bool_)) else type(v).__name__
+        return {cb: {k: ([sc(x) for x in v] if isinstance(v, list) else sc(v)) for k, v in lg.items()} for cb, lg in logs.items()}
+
+    for det in ALL:
+        if det.name == "KSWIN":
+            continue
+        for _ in range(2 if ck.tier != "thorough" else 8):
+            cfg = det.gen_cfg(rng)
+            pre = gen_ops(rng, det, cfg, rng.choice([6, 30]) if det.name != "BOCD" else 8, resets=False)
+            suf = gen_ops(rng, det, cfg, rng.choice([5, 25]) if det.name != "BOCD" else 8, resets=False)
+            d1 = det.make(cfg, callbacks=[HistoryConceptDrift(name="h")])
+            d2 = det.make(cfg, callbacks=[HistoryConceptDrift(name="h")])
+            try:
+                for v in pre:
+                    d1.update(value=v)
+                d1.reset()
+                r1 = [plain(d1.update(value=v)) for v in suf]
+                r2 = [plain(d2.update(value=v)) for v in suf]
+            except Exception as e:  # noqa: BLE001
+                ck.violation(dict(clause="raises", detector=det.name, error=type(e).__name__, scenario="returned-logs"), dict(detector=det.name, config=cfg, prefix=pre, suffix=suf, error=repr(e)))
+                continue
+            ck.case(dict(detector=det.name, config=cfg, kind="returned-logs-after-reset", prefix_len=len(pre)), nontrivial=True, key=repr(("retlogs", det.name, cfg, pre, suf)))
+            ck.count("returned_logs_cases")
+            if r1 != r2:
+                step = next(i for i, (a, b_) in enumerate(zip(r1, r2)) if a != b_)
+                ck.violation(dict(clause="reset-behaviour", detector=det.name, observable="update-return-value"), dict(what="after reset() the logs RETURNED by update() differ from those of a new detector with a new history callback", detector=det.name, config=cfg, prefix=pre, suffix=suf[: step + 1], step=step, after_reset=r1[step], fresh=r2[step]))
     # data-drift streaming detectors (IncrementalKSTest, MMDStreaming): reset + refit on the same reference
     try:
         import c02_datadrift
